@@ -2,6 +2,7 @@
    Property theorems only; proofs in Compose.v (over Select/Shard/Grid proofs). *)
 From Coq Require Import List ZArith NArith Bool.
 From Verif Require Import Base Grid Select Shard Exec Compose Bin BinProofs.
+From Verif Require Trees.
 Import ListNotations.
 Open Scope Z_scope.
 
@@ -52,3 +53,18 @@ Theorem C07_join_range_is_instants :
     In (fst (fst s), out) outs.
 Proof. exact BinProofs.join_range_is_instants. Qed.
 Print Assumptions C07_join_range_is_instants.
+
+(* ... and for whole operator trees (joins, per-sample operators, count
+   aggregations over selectors; the composite model compared with the engine on
+   every run): what a range query produces at a grid step is what the instant
+   query at that timestamp produces, for any shard counts and batch sizes. *)
+Theorem C07_tree_range_is_instants :
+  forall (cf cf' : cfg) (w : window) (t : Trees.jtree) (ts : Z),
+  (0 < c_shards cf)%nat -> (0 < c_batch cf)%nat -> (0 < c_shards cf')%nat -> (0 < c_batch cf')%nat ->
+  0 <= c_lookback cf -> c_lookback cf' = c_lookback cf -> wf_window w -> Bin.noT < w_start w -> Trees.jok t ->
+  In ts (grid w) ->
+  exists outs,
+    Trees.jrun cf w t = inl outs /\ In (ts, Trees.jdenote (c_lookback cf) t ts) outs /\
+    Trees.jrun cf' (mkW ts ts 0) t = inl [(ts, Trees.jdenote (c_lookback cf) t ts)].
+Proof. exact Trees.jtree_range_is_instants. Qed.
+Print Assumptions C07_tree_range_is_instants.
